@@ -8,6 +8,8 @@
 #      scratch worktree of /repo HEAD (/root/ir-repo-<k>) with a copy of /verif (/root/ir-verif-<k>)
 #      whose harness depends on that worktree - /repo itself is not touched;
 #   3. files it with meta.json (confirmed, caught_by, caught_by_own_check).
+# IDS="C02 C04 C05" shortens the list of checks run against each change (the own check always runs, first);
+# round 10 was taken in that way and its meta.json files say so.
 # Only worktrees marked with out/DONE (the sub-agent has reported back) are looked at.
 # Scratch copies are removed at the end.
 OFFSET=${1:?offset}; J=${2:-4}; WTP=${WTPREFIX:-/tmp/wt-}
@@ -67,7 +69,7 @@ worker() {
     P=$WTP$CID/out/patch$N.diff
     cd /root/ir-repo-$k && git checkout -q -- . && git apply $P || { echo "$CID $N APPLY-FAILED" > $WTP$CID/out/caught$N.txt; continue; }
     CAUGHT=""
-    for id in C01 C02 C03 C04 C05 C06 C07 C08 C09 C10 C11 C12 C13 C14 C15 C16 C17 C18 C19 C20; do
+    for id in $(echo $CID ${IDS:-C01 C02 C03 C04 C05 C06 C07 C08 C09 C10 C11 C12 C13 C14 C15 C16 C17 C18 C19 C20} | tr " " "\n" | awk '!s[$0]++'); do
       out=$(cd /root/ir-verif-$k && VERIF_SEED=0 FFV_THREADS=8 FFV_REPO_SRC=/root/ir-repo-$k/src ./check $id 2>&1); rc=$?
       if [ $rc -eq 1 ]; then CAUGHT="$CAUGHT $id"; echo "$out" | grep -A1 '^VIOLATION' | head -2 | cut -c1-400 > $WTP$CID/out/viol$N-$id.txt
       elif [ $rc -ne 0 ]; then echo "$id exit $rc: $(echo "$out" | tail -2 | cut -c1-300)" >> $WTP$CID/out/trouble$N.txt; fi
